@@ -248,6 +248,12 @@ inductive AuxResult where
   | lastContext  -- `_cb_sync` for every context: the last auxiliary method's result
   deriving Repr, DecidableEq
 
+/-- what `NullServer(app, ostr=True)` does with an `Ignored` result before it serialises -/
+inductive OstrIgnored where
+  | dropped     -- replaced like `ServerBase.get_out_object` does: the reply is empty        (good)
+  | serialized  -- the `Ignored` object itself is handed to the protocol: TypeError  (pinned tree)
+  deriving Repr, DecidableEq
+
 structure Facts18 where
   /-- `if val is not None` in `_FunctionCall.__call__`: a keyword argument that is `None`
       does not replace a positional one -/
@@ -266,6 +272,7 @@ structure Facts18 where
   /-- `ctx.in_object = [None] * len(_type_info)` is rebuilt on every call: a `_FunctionCall`
       object keeps no argument slots between calls -/
   slotsPerCall : Bool
+  ostrIgnored : OstrIgnored
   xml : ProtoCfg
   soap : ProtoCfg
   json : ProtoCfg
@@ -286,6 +293,11 @@ instance (F : Facts18) : Decidable F.Good := by unfold Facts18.Good; infer_insta
 
 /-- the decisions about auxiliary contexts and about state between calls -/
 def Facts18.GoodCalls (F : Facts18) : Prop := F.auxResult = .primaryOnly ∧ F.slotsPerCall = true
+
+/-- the decision about the string mode -/
+def Facts18.GoodOstr (F : Facts18) : Prop := F.ostrIgnored = .dropped
+
+instance (F : Facts18) : Decidable F.GoodOstr := by unfold Facts18.GoodOstr; infer_instance
 
 instance (F : Facts18) : Decidable F.GoodCalls := by unfold Facts18.GoodCalls; infer_instance
 
